@@ -400,6 +400,14 @@ def compare_state(ck, lib, c, s, tf, ts, dxf, dxs, worst, info):
     # rows with (numerically) zero inverse weight, R clamped at mjMINVAL: the two engines clamp before / after the pyramid
     # scaling (D = 3.4e14 vs 1e15) and the problem is ill-posed either way
     return dict(status='illconditioned:efc_D', ncon=ncon)
+  Jx_all = np.asarray(dxf._impl.efc_J)
+  if Jx_all.size and not FINDINGS:
+    zr = ~(Jx_all != 0).any(axis=1)
+    if np.any(zr & (np.abs(np.asarray(dxf._impl.efc_aref)) * np.asarray(dxf._impl.efc_D) > 1e10)):
+      # (F23, second form) MJX keeps equality rows between dof-less bodies (connect/weld on a mocap body): zero Jacobian,
+      # R = mjMINVAL, force ~ -1e15*aref; the C engine emits no such rows.  The constant cost ~1e20 costs the MJX solver
+      # its precision (observed qacc error 3e-3)
+      return dict(status='deviation:dofless-equality-rows', ncon=ncon)
   perm, jdotv = compare_efc(lib, tm, tf, dxf, worst, t_efc)
   nrows = len(perm)
   if jdotv:
